@@ -170,12 +170,42 @@ def r13_1_as_trivial(ctx: Ctx, rule: str = "R13.1") -> None:
         cases.append(("nested-and", [xs[0], Obj(land_c, operands=(xs[1], xs[2]))]))
         cases.append(("nested-or", [Obj(lor_c, operands=(xs[0], xs[1])), xs[2]]))
         cases.append(("single-nested", [Obj(land_c if fname == "logical_or" else lor_c, operands=(xs[0], xs[1]))]))
+        same_c = land_c if fname == "logical_and" else lor_c
+        cases.append(("same-first", [Obj(same_c, operands=(xs[0], xs[1])), xs[2]]))
+        cases.append(("same-last", [xs[0], Obj(same_c, operands=(xs[1], xs[2]))]))
         for label, ops in cases:
             n = len(ops)
             inst = f"Predicate.{fname}:{label}"
             interp = MergeInterp(ctx, Oracle([]), pred.module, {})
+
+            def _tags(o):
+                if o.cls.name == "PredicateReference":
+                    return {o.attrs["tag"]}
+                if o.cls.name == "LogicalNot":
+                    return _tags(o.attrs["operand"])
+                return {t for x in o.attrs.get("operands", ()) for t in _tags(x)}
+
             try:
+                # the operands have been looked at before (any caller that validated them did): cached answers exist
+                for o in ops:
+                    interp.getattr(o, "columns_required", f.node)
                 got = interp.call_function(f, None, list(ops), {})
+                if n >= 2 and isinstance(got, Obj) and got.cls is not None and interp.m.method(got.cls, "columns_required") is not None:
+                    req = interp.getattr(got, "columns_required", f.node)
+                    want_req = {t for o in ops for t in _tags(o)}
+                    if set(req) != want_req:
+                        run.fail(
+                            rule,
+                            inst,
+                            f"Predicate.{fname}({', '.join('<' + o.cls.name + '>' for o in ops)}) returns an object whose columns_required is {sorted(req)} instead of {sorted(want_req)} "
+                            "when the operands' own columns_required had been read before: an answer cached on an operand was carried over into the result",
+                            fi=f,
+                        )
+                        continue
+                    stale = [o for o in ops if set(interp.getattr(o, "columns_required", f.node)) != _tags(o)]
+                    if stale:
+                        run.fail(rule, inst, f"Predicate.{fname} changes an operand: its columns_required no longer matches its operands", fi=f)
+                        continue
             except Crash as e:
                 run.fail(rule, inst, f"Predicate.{fname} with {n} operand(s) fails: {e}", fi=f)
                 continue
